@@ -92,3 +92,10 @@ def run_case(case, drv):
     res.nontrivial = n >= 2 and nf < len(B.feasible)
     res.features += [f"n:{n}", f"optima:{min(int(oarg.sum()), 3)}"]
     return res
+
+
+EXHAUSTIVE_SCOPE = FU.EXHAUSTIVE_FORMS_SCOPE
+
+
+def gen_exhaustive():
+    yield from FU.gen_exhaustive_forms(("arc", "path", "seq"))
